@@ -1,9 +1,77 @@
-import Octo.Model.OpSpec
-/-! # C15 — placeholder while the pipeline is wired (replaced below) -/
+import Octo.Lemmas.OpsStateless
+import Octo.Lemmas.OpsDistinct
+/-!
+# C15 — Operators keep a valid changelog and compute incrementally what batch computes
+
+For every valid input changelog (additions and retractions in any order, never retracting an absent
+row) each operator's output never retracts a row that is not currently present (`…_valid_out`), and
+its consolidated output equals the batch operator of `Octo.Model.OpSpec` applied to the consolidated
+input (`…_net_commutes`).  All theorems quantify over message streams of **any** length, with
+watermarks and event times; rows are identified by `Compare == 0` (`rowEq`).
+
+The operator models (`Octo.Model.Ops`) are tied to `execution/nodes/*.go` by the exact-sequence
+correspondence run of every check.
+-/
 namespace Octo.C15
 open Octo Octo.Ops
 
-theorem filter_wm (p : Row → Except Err Value) (t : Int) :
-    (filterOp p).onMsg () (.wm t) = ((), [.wm t], none) := rfl
+/-- the records a node emits for a message stream (source ends normally) -/
+abbrev outRecs (op : Op σ) (ms : List Msg) : List Rec := recs (op.run ms).1
+
+/-- every valid changelog has a consolidation (so the hypotheses `Consolidates rows …` below are
+    satisfiable exactly for the changelogs the property talks about) -/
+theorem valid_has_consolidation (log : List Rec) (h : ValidLog log) : Consolidates (consolidate log) log :=
+  consolidate_correct h
+
+/-! ## Filter -/
+theorem filter_valid_out (p : Row → Value) (hp : PredCongr p) (ms : List Msg) (hv : ValidLog (recs ms)) :
+    ValidLog (outRecs (filterOp fun x => .ok (p x)) ms) := by
+  simp only [outRecs, filter_recs]; exact linear_valid (filter_linear p hp) hv
+
+theorem filter_net_commutes (p : Row → Value) (hp : PredCongr p) (ms : List Msg) (rows : List Row)
+    (hc : Consolidates rows (recs ms)) (y : Row) :
+    net (outRecs (filterOp fun x => .ok (p x)) ms) y = cnt (filterB p rows) y := by
+  simp only [outRecs, filter_recs]
+  rw [linear_net (filter_linear p hp).net_block (filter_linear p hp).congr hc, sumOver_filterK]
+
+/-! ## Map (the image multiset) -/
+theorem map_valid_out (f : Row → Row) (hf : RowCongr f) (ms : List Msg) (hv : ValidLog (recs ms)) :
+    ValidLog (outRecs (mapOp fun x => .ok (f x)) ms) := by
+  simp only [outRecs, map_recs]; exact linear_valid (map_linear f hf) hv
+
+theorem map_net_commutes (f : Row → Row) (hf : RowCongr f) (ms : List Msg) (rows : List Row)
+    (hc : Consolidates rows (recs ms)) (y : Row) :
+    net (outRecs (mapOp fun x => .ok (f x)) ms) y = cnt (mapB f rows) y := by
+  simp only [outRecs, map_recs]
+  rw [linear_net (map_linear f hf).net_block (map_linear f hf).congr hc, sumOver_mapK]
+
+/-! ## Distinct (indicator of positive multiplicity) -/
+theorem distinct_valid_out (ms : List Msg) (hv : ValidLog (recs ms)) : ValidLog (outRecs distinctOp ms) := by
+  rw [validLog_iff_validFrom]
+  have := (distinct_runFrom ms [] (by intro y; simp [getc, aget]) (by intro n y; simpa [getc, aget] using hv n y)).2.2
+  show ValidFrom _ (recs (distinctOp.runFrom [] ms false).1)
+  simpa [getc, aget, ind] using this
+
+theorem distinct_net_commutes (ms : List Msg) (hv : ValidLog (recs ms)) (rows : List Row)
+    (hc : Consolidates rows (recs ms)) (y : Row) :
+    net (outRecs distinctOp ms) y = distinctSpec rows y := by
+  have := (distinct_runFrom ms [] (by intro y; simp [getc, aget]) (by intro n y; simpa [getc, aget] using hv n y)).2.1 y
+  show net (recs (distinctOp.runFrom [] ms false).1) y = _
+  rw [this, hc y]
+  simp [getc, aget, ind, distinctSpec]
+
+/-! ## LookupJoin -/
+/-- net_commutes holds for any (error-free, row-congruent) joined side, also one that retracts -/
+theorem lookup_net_commutes (J : Row → List Msg) (hJ : ∀ y, Congr (fun x => lookupK J x y)) (ms : List Msg)
+    (rows : List Row) (hc : Consolidates rows (recs ms)) (y : Row) :
+    net (outRecs (lookupOp fun x => (J x, none)) ms) y = lookupSpec (fun x => recs (J x)) rows y := by
+  simp only [outRecs, lookup_recs]
+  rw [linear_net (lookup_net_block J) hJ hc, sumOver_lookupK]
+
+/-- valid_out needs the joined side to emit additions only (see `lookup_refuted`) -/
+theorem lookup_valid_out (J : Row → List Msg) (hJ : ∀ y, Congr (fun x => lookupK J x y))
+    (hadd : ∀ x, ∀ j ∈ recs (J x), j.retr = false) (ms : List Msg) (hv : ValidLog (recs ms)) :
+    ValidLog (outRecs (lookupOp fun x => (J x, none)) ms) := by
+  simp only [outRecs, lookup_recs]; exact linear_valid (lookup_linear J hJ hadd) hv
 
 end Octo.C15
